@@ -5,10 +5,16 @@
    particular library move produces accepted paths and ends where documented is decided by running
    the library on its layouts (all sizes / index lists / offsets of the stated bounds) and feeding
    the played paths to this simulator - evaluated both in Coq and by its Python twin.
+   For the CZ move the claim is carried by a theorem for ALL sizes: its two played paths have the
+   round-trip shape (pick everything up on a grid of trap sites, travel along any waypoints, travel
+   back along the reversed list, release), and every run of that shape is accepted and leaves each
+   site holding the atom it held before (theorems C08_round_trip_... below).  That the library's CZ moves play paths
+   of exactly this shape is decided per call by the recogniser [round_trip_ok], evaluated in Coq on
+   every enumerated call.
    Statements only. *)
 From Coq Require Import String.
 From Coq Require Import ZArith QArith List Bool Arith Permutation.
-From BS Require Import Core.Base Model.Aod Proofs.AodProofs.
+From BS Require Import Core.Base Model.Aod Proofs.AodProofs Proofs.AodRoundTrip.
 Import ListNotations.
 
 Theorem C08_no_atom_lost_or_duplicated : forall st ps st',
@@ -41,6 +47,27 @@ Theorem C08_tweezers_never_coincide : forall st first nx ny w st',
   (forall i j : nat, (i < j)%nat -> (j < length (yon st'))%nat -> ~ Qeq (nth i (map snd (yon st')) 0) (nth j (map snd (yon st')) 0)).
 Proof. exact tweezers_never_coincide. Qed.
 
+(* the round trip of the CZ move, for all grid sizes, coordinates, waypoint lists, trap sets and occupancies:
+   s is the grid where everything is picked up (pairwise different coordinates per axis, every spot on a trap
+   site), ws any further waypoints of the same dimensions; no site may be listed twice in the occupancy *)
+Theorem C08_round_trip_is_executable_and_returns_every_atom :
+  forall nx ny (T : list pos) (O : list (pos * nat)) (s : list Q * list Q) (ws : list (list Q * list Q)),
+  wp_ok nx ny s -> Forall (wp_ok nx ny) ws ->
+  (forall x y, In x (fst s) -> In y (snd s) -> existsb (pos_eqb (x, y)) T = true) ->
+  occ_wf O = true ->
+  let fwd := mkspath nx ny [SWay [s]; SSwitch On ALL ALL; SWay (s :: ws)] in
+  let bwd := mkspath nx ny [SWay (rev (s :: ws)); SSwitch Off ALL ALL; SWay [s]] in
+  exists st', sim_paths (mkast T O [] [] []) [fwd; bwd] = AOk st' /\
+    traps st' = T /\ xon st' = [] /\ yon st' = [] /\ held st' = [] /\
+    forall p, occ_find p (occ st') = occ_find p O.
+Proof. exact cz_round_trip. Qed.
+
+(* what the per-call recogniser establishes *)
+Theorem C08_recognised_call_is_executable_and_returns_every_atom : forall T O ps, round_trip_ok T O ps = true ->
+  exists st', sim_paths (mkast T O [] [] []) ps = AOk st' /\
+    traps st' = T /\ xon st' = [] /\ yon st' = [] /\ held st' = [] /\ forall p, occ_find p (occ st') = occ_find p O.
+Proof. exact recognised_round_trip_executable. Qed.
+
 (* a CZ-move shaped program on a 2x1 selection: out along an L-shaped path, back along its reversal *)
 Example C08_example :
   let ALL := SSlice None None None in
@@ -50,7 +77,8 @@ Example C08_example :
   let swapped := mkspath 2 1 [SWay [([10; 30], [0])]; SSwitch Off ALL ALL; SWay [([10; 30], [0])]] in
   show_sim (sim_paths st0 [fwd; bwd]) = "ok held=0 occ=[1@0/1,0/1,2@20/1,0/1,3@10/1,0/1]"%string
   /\ sim_paths st0 [fwd; swapped] = AErr EJump
-  /\ sim_paths st0 [mkspath 2 1 [SWay [([0; 0], [0])]; SSwitch On ALL ALL]] = AErr ECollide.
+  /\ sim_paths st0 [mkspath 2 1 [SWay [([0; 0], [0])]; SSwitch On ALL ALL]] = AErr ECollide
+  /\ round_trip_ok (traps st0) (occ st0) [fwd; bwd] = true /\ round_trip_ok (traps st0) (occ st0) [fwd; swapped] = false.
 Proof. vm_compute. repeat split; reflexivity. Qed.
 
 Print Assumptions C08_no_atom_lost_or_duplicated.
@@ -59,3 +87,5 @@ Print Assumptions C08_spots_light_up_only_on_trap_sites.
 Print Assumptions C08_jump_while_holding_is_refused.
 Print Assumptions C08_wrong_dimensions_are_refused.
 Print Assumptions C08_tweezers_never_coincide.
+Print Assumptions C08_round_trip_is_executable_and_returns_every_atom.
+Print Assumptions C08_recognised_call_is_executable_and_returns_every_atom.
